@@ -145,7 +145,7 @@ class RelativeFrequencySubcircuit(Subcircuit):
     def relative_frequency_by_str(self):
         """Return the relative frequency associated with each measurement result formatted as a
         dictionary mapping result strings to their respective probabilities."""
-        qubits = len(self._trace.used_qubits)
+        qubits = len(self.measured_qubits)
         rf = self._relative_frequencies
         return OrderedDict(
             [(f"{n:b}".zfill(qubits)[::-1], v) for n, v in enumerate(rf)]
@@ -256,7 +256,7 @@ class ProbabilisticSubcircuit(Subcircuit):
     def simulated_probability_by_str(self):
         """Return the probability associated with each measurement result formatted as a
         dictionary mapping result strings to their respective probabilities."""
-        qubits = len(self._trace.used_qubits)
+        qubits = len(self.measured_qubits)
         p = self._probabilities
         return OrderedDict([(f"{n:b}".zfill(qubits)[::-1], v) for n, v in enumerate(p)])
 
